@@ -95,6 +95,12 @@ CHECKS = {
    text="Generated-input search over texts with hostile layout (double spaces, tabs, mixed indentation, trailing blanks, blank-line runs, CRLF, multi-line literals containing keywords/blanks, keyword-spelled quoted identifiers, comments containing quotes and keywords, non-ASCII). Rewriters: each auto-fixable rule's Fix alone, all fixes in the CLI's order, and the language server's textDocument/formatting applied through a real server. For each: token sequence and comment texts preserved (unquoted words case-insensitively), fixed point, no remaining violation of an applied rule, every violation location inside the text. Each layout rule (L001, L003, L005, L010, L007) must report exactly the (line, column) set of a reference predicate written from docs/LINTING_RULES.md and evaluated with the reference lexer's knowledge of literal and comment spans.",
    note="Trusted: the library tokenizer as token reader (C04), the reference lexer for spans; blanks after a line comment's last visible character count as layout; one listed finding (backslash-escaped quotes) is pinned by the existing suite.",
    design="4/C17"),
+ "C19": dict(
+   technique="property-based testing of the real binary with fault injection: generated file sets and flag combinations against the library verdict (differential), metamorphic batch-vs-individual and print/-i/--check/-o/stdin consistency, and exhaustive enumeration of write-failure byte offsets (RLIMIT_FSIZE) and kill points (strace SIGKILL injection before every file-related system call) for both in-place writers",
+   level="fault_enumeration",
+   text="The gosqlx binary is rebuilt from the tree under test and run in scratch directories. (1) cli_verdict: 1-4 generated files (valid, multi-statement, corrupted, empty, stray semicolons, dialect-only syntax) x validate/format/lint/parse flag combinations: exit status 0 iff the library accepts every input under the same options (lint: no failing-severity finding by the same rule set), check-only modes leave hash/mode/mtime untouched, JSON and SARIF reports parse, have consistent counts and name exactly the failing inputs. (2) format_modes_consistent: text output == concatenation of per-file outputs == what -i writes; --check exits 0 iff -i changes nothing; -o and stdin agree; a file whose processing fails is never rewritten. (3) inplace_faults: for format -i and lint --auto-fix, for EVERY k in 0..len(new) the write fails after exactly k bytes (short write then EFBIG, SIGXFSZ blocked and default), and the process is SIGKILLed before its n-th file-related system call for every n; afterwards the file is the complete original or the complete new content.",
+   note="Trusted: RLIMIT_FSIZE and strace injection as fault models (a kill lands on a system-call boundary; a torn single write() inside the kernel is modelled by the short-write case); the library verdict as reference; empty and blank-only files are outside the compared verdict because the library's own entry points disagree on them; whether the CLI formatter supports a statement type the parser accepts is not compared.",
+   design="4/C19"),
 }
 
 def main():
